@@ -717,7 +717,7 @@ def id_filters(ck, rule_filter, rule_order):
                  required="group['CMapId']")
         pos = a.get("positions")
         srt = pos is not None and any((x[0] == "mcall" and x[2] in ("sort_values",)) or
-                                      (x[0] == "call" and x[1] in ("sorted", "numpy.sort", "numpy.msort"))
+                                      (x[0] == "call" and x[1] in ("sorted", "numpy.sort", "numpy.msort", "numpy.unique"))   # unique sorts (what it drops is C17.9's matter)
                                       for x in T.subterms(pos))
         ck.judge(bool(srt), rule_order, "CmapReader.__parseCmapRowsGroup:sorted", where(parse, pa.node),
                  "label positions are sorted before they enter an OpticalMap (row order in the file cannot matter)",
